@@ -9,30 +9,8 @@ written), attributes, values; every element reference is a node that is a copy o
 namespace C14.Kv2
 open C14 List
 
-/-- the inline children named by a list of values / attributes. -/
-def kidsOfVals (g : TGraph) (flat : Bool) (vals : List TVal) : List Nat :=
-  vals.filterMap fun v =>
-    match v with
-    | .ref (.idx j) => if isRoot g flat j then none else some j
-    | _ => none
-
-def kidsOfAttrs (g : TGraph) (flat : Bool) (as : List TAttr) : List Nat :=
-  as.flatMap fun a => kidsOfVals g flat a.vals
-
 theorem inlineKids_eq (g : TGraph) (flat : Bool) (e : TElem) :
     inlineKids g flat e = kidsOfAttrs g flat e.attrs := rfl
-
-/-- emission order below element `i`: `i`, then the orders of its inline children. -/
-def orderOf (g : TGraph) (flat : Bool) : Nat → Nat → List Nat
-  | 0, _ => []
-  | fuel + 1, i =>
-    match g.elems[i]? with
-    | none => []
-    | some e => i :: (inlineKids g flat e).flatMap (orderOf g flat fuel)
-
-/-- for each node of the parsed forest (preorder), the element it is a copy of. -/
-def order (g : TGraph) (flat : Bool) : List Nat :=
-  (roots g flat).flatMap (orderOf g flat (g.elems.length + 1))
 
 /-- `seg` occupies the positions `base, base+1, …` of `ord`. -/
 def Seg (ord : List Nat) (base : Nat) (seg : List Nat) : Prop :=
@@ -251,14 +229,6 @@ theorem forall₂_getElem?_left {α β : Type} {R : α → β → Prop} {l1 : Li
     cases k with
     | zero => simp only [List.getElem?_cons_zero, Option.some.injEq] at ha; subst ha; exact ⟨_, rfl, hab⟩
     | succ k => simpa using ih (by simpa using ha)
-
-/-- distinct elements have distinct UUIDs, and no stub carries the UUID of an element (decidable). -/
-def uuidsOK (g : TGraph) : Bool :=
-  decide ((g.elems.map (·.uuid)).Nodup) &&
-  g.elems.all fun e => e.attrs.all fun a => a.vals.all fun v =>
-    match v with
-    | .ref (.stub u) => !(g.elems.map (·.uuid)).contains u
-    | _ => true
 
 theorem idOf_some {nodes : List FNode} {u : Str} {k : Nat} (h : idOf nodes u = some k) :
     ∃ n, nodes[k]? = some n ∧ n.uuid = some u := by
